@@ -190,7 +190,7 @@ func (p *Prog) siteOnlyNoFollowKinds(call *ssa.Call, g *ssa.Function, u *unpackC
 		ev := p.newEvaluator(nil)
 		var params []absVal
 		for _, prm := range g.Params {
-			if named, ok := derefType(prm.Type()).(*types.Named); ok && named.Obj().Name() == "UnpackInfo" {
+			if named, ok := types.Unalias(derefType(prm.Type())).(*types.Named); ok && named.Obj().Name() == "UnpackInfo" {
 				params = append(params, kv)
 			} else {
 				params = append(params, absTop)
@@ -324,7 +324,7 @@ func (p *Prog) isRestoreFunc(g *ssa.Function) bool {
 	}
 	takes := false
 	for _, prm := range g.Params {
-		if named, ok := derefType(prm.Type()).(*types.Named); ok && named.Obj().Name() == "UnpackInfo" {
+		if named, ok := types.Unalias(derefType(prm.Type())).(*types.Named); ok && named.Obj().Name() == "UnpackInfo" {
 			takes = true
 		}
 	}
@@ -389,7 +389,7 @@ func ruleRestore(id string) func(*Checker) {
 			if cl, ok := in.(*ssa.Call); ok {
 				if b, ok := cl.Call.Value.(*ssa.Builtin); ok && b.Name() == "append" {
 					if sl, ok := cl.Type().Underlying().(*types.Slice); ok {
-						if n, ok := sl.Elem().(*types.Named); ok && n.Obj().Name() == "UnpackInfo" {
+						if n, ok := types.Unalias(sl.Elem()).(*types.Named); ok && n.Obj().Name() == "UnpackInfo" {
 							appends = append(appends, cl)
 						}
 					}
@@ -655,7 +655,7 @@ func ruleC02Fields(c *Checker) {
 }
 
 func isHeaderType(t types.Type) bool {
-	n, ok := derefType(t).(*types.Named)
+	n, ok := types.Unalias(derefType(t)).(*types.Named)
 	return ok && n.Obj().Name() == "Header" && n.Obj().Pkg() != nil && n.Obj().Pkg().Path() == "archive/tar"
 }
 
